@@ -14,9 +14,9 @@ modobj = importlib.import_module('contracts.' + mod)
 repo = Repo('/repo/src', extra_roots=['/verif/contracts'])
 for q, c in REGISTRY.items():
     if pat and pat not in q: continue
-    if getattr(c, '_module', None) != mod: continue
+    if getattr(c, '_module', None) != mod or c.assumed: continue
     t = time.time()
-    fv = FunctionVerifier(repo, c, REGISTRY, setup=c.engine_setup, spec_modules=["spec_geonet"] if False else [])
+    fv = FunctionVerifier(repo, c, REGISTRY, setup=c.engine_setup, spec_modules=sorted(os.path.basename(x)[:-3] for x in glob.glob("/verif/contracts/spec_*.py")))
     try:
         res = fv.run()
     except Exception as e:
